@@ -82,8 +82,8 @@ CLAIMED = {
         "generic-parser and library-decoder oracles compare the values; codec functions run against the model with compress/flate as oracle. partial: the struct-to-tree mapping of encoding/xml and compress/flate are not modelled."),
  "C15": dict(ref="5 C15", technique="Rocq/Coq proof of isolation for every schedule over a free-monad interleaving model instantiated with the callback model + race-detector harness with marker, alone-vs-concurrent and in-Coq callback correspondence oracles",
    text="partial: C15_isolation / _non_interference / _ids_distinct hold for every schedule and any number of threads of read-only programs over atomic storage operations; C15_callback_program shows the "
-        "callback model IS such a program (result = model reply, operations = model call list, which C01 ties to the real storage log); C15_concurrent_callbacks / _callback_local / _logout_local: each reply is the model's "
-        "reply on the session's own records only. Freedom from Go data races and distinctness of random UUIDs cannot be theorems about a Gallina model: the harness runs 4..64 (thorough 256) goroutines on one provider under "
+        "callback model IS such a program (result = model reply, operations = model call list, which C01 ties to the real storage log); C15_concurrent_callbacks, and the locality theorems _callback_local / _logout_local / _sso_local / _attrquery_local: each reply is the model's "
+        "reply on the records its own request names only. Freedom from Go data races and distinctness of random UUIDs cannot be theorems about a Gallina model: the harness runs 4..64 (thorough 256) goroutines on one provider under "
         "-race and checks every reply against the reply alone, against all other sessions' markers, and the ID multiset. The isolation theorem with creations (SSO) is proved in Conc/Interleave.v but the SSO model is not yet instantiated as a program."),
  "C16": dict(ref="5 C16", technique="Rocq/Coq proof about go2v-generated Gallina of GetAcsUrlAndBindingForResponse + exhaustive correspondence",
    text="C16_bridge/_refines/_deterministic/_member are proved for all lists about the Gallina function go2v regenerates from sso.go on every run; "
